@@ -2,10 +2,14 @@ package main
 
 import (
 	"bytes"
+	"encoding/csv"
 	"encoding/json"
 	"fmt"
+	"io"
 	"math/rand"
 	"os"
+	"path/filepath"
+	"reflect"
 	"strings"
 	"time"
 
@@ -24,6 +28,16 @@ type c19Input struct {
 	Removed []int      `json:"removed"`
 	RunSize uint64     `json:"runSize"`
 	Rows    [][]string `json:"rows"` // hex cells
+	// Via "sortfile": the rows reach the sorter as a CSV file through Sorter.SortFile(file, key column
+	// NAMES) — the way `wrgl commit` and ingest.IngestTable load it — instead of SetColumns + PK + AddRow.
+	// Rows are then what encoding/csv reads back from the file (c19CSVFix).
+	Via string `json:"via,omitempty"`
+	// BadLen > 0 (op sort-fault): while rows BadFrom <= i < BadFrom+BadLen are added no spill file can
+	// be created (TMPDIR names a directory that does not exist), so every spill attempted there makes
+	// AddRow return an error; the caller carries on with the next row, as ingest.reingestTable and the
+	// doctor's resolver do.
+	BadFrom int `json:"badFrom,omitempty"`
+	BadLen  int `json:"badLen,omitempty"`
 }
 
 type c19Block struct {
@@ -53,26 +67,94 @@ func countFiles(dir string) int {
 	return len(es)
 }
 
-func newFilledSorter(in *c19Input, rows [][]string) (*sorter.Sorter, error) {
-	s, err := sorter.NewSorter(sorter.WithRunSize(in.RunSize))
-	if err != nil {
-		return nil, err
-	}
-	cols := make([]string, in.NCols)
+func c19ColNames(n int) []string {
+	cols := make([]string, n)
 	for i := range cols {
 		cols[i] = string(rune('a' + i))
 	}
-	s.SetColumns(cols)
+	return cols
+}
+
+// c19CSV writes header + rows with encoding/csv.
+func c19CSV(ncols int, rows [][]string) []byte {
+	buf := bytes.NewBuffer(nil)
+	w := csv.NewWriter(buf)
+	w.Write(c19ColNames(ncols))
+	for _, r := range rows {
+		w.Write(r)
+	}
+	w.Flush()
+	return buf.Bytes()
+}
+
+// c19CSVFix returns the rows a plain encoding/csv reader finds in the file written from rows, repeated
+// until writing and re-reading changes nothing (the reader turns CR LF inside a quoted cell into LF and
+// skips the empty line a single empty cell is written as: the tokeniser is not what C19 is about).
+// ok is false when the file cannot be read back at all.
+func c19CSVFix(ncols int, rows [][]string) ([][]string, bool) {
+	for i := 0; i < 8; i++ {
+		r := csv.NewReader(bytes.NewReader(c19CSV(ncols, rows)))
+		all, err := r.ReadAll()
+		if err != nil || len(all) == 0 {
+			return nil, false
+		}
+		got := all[1:]
+		if len(got) == len(rows) && (len(got) == 0 || reflect.DeepEqual(got, rows)) {
+			return got, true
+		}
+		rows = got
+	}
+	return nil, false
+}
+
+// c19BadTmp is a directory name below the private scratch directory that never exists.
+func c19BadTmp() string { return filepath.Join(privateTmp(), "removed", "tmp") }
+
+// newFilledSorter loads the rows into a new sorter. failed lists the indices of the rows whose AddRow
+// returned an error while spill files could not be created (in.BadLen > 0); any other AddRow error
+// ends the load.
+func newFilledSorter(in *c19Input, rows [][]string) (s *sorter.Sorter, failed []int, err error) {
+	s, err = sorter.NewSorter(sorter.WithRunSize(in.RunSize))
+	if err != nil {
+		return nil, nil, err
+	}
+	failed = []int{}
+	if in.Via == "sortfile" {
+		pk := make([]string, len(in.PK))
+		cols := c19ColNames(in.NCols)
+		for i, p := range in.PK {
+			pk[i] = cols[p]
+		}
+		if err := s.SortFile(io.NopCloser(bytes.NewReader(c19CSV(in.NCols, rows))), pk); err != nil {
+			s.Close()
+			return nil, nil, err
+		}
+		return s, failed, nil
+	}
+	s.SetColumns(c19ColNames(in.NCols))
 	s.PK = make([]uint32, len(in.PK))
 	for i, p := range in.PK {
 		s.PK[i] = uint32(p)
 	}
-	for _, r := range rows {
+	good := privateTmp()
+	defer os.Setenv("TMPDIR", good)
+	for i, r := range rows {
+		bad := in.BadLen > 0 && i >= in.BadFrom && i < in.BadFrom+in.BadLen
+		if bad {
+			os.Setenv("TMPDIR", c19BadTmp())
+		} else {
+			os.Setenv("TMPDIR", good)
+		}
 		if err := s.AddRow(r); err != nil {
-			return nil, err
+			if bad {
+				failed = append(failed, i)
+				continue
+			}
+			s.Close()
+			return nil, nil, err
 		}
 	}
-	return s, nil
+	return s, failed, nil
 }
 
 func c19Run(in *c19Input) Res {
@@ -92,7 +174,7 @@ func c19Run(in *c19Input) Res {
 		}
 		out := map[string]interface{}{}
 		// blocks
-		s1, err := newFilledSorter(in, rows)
+		s1, failed1, err := newFilledSorter(in, rows)
 		if err != nil {
 			return Err("addrow")
 		}
@@ -124,7 +206,7 @@ func c19Run(in *c19Input) Res {
 		}
 		out["blocks"] = blocks
 		// rows
-		s2, err := newFilledSorter(in, rows)
+		s2, failed2, err := newFilledSorter(in, rows)
 		if err != nil {
 			return Err("addrow")
 		}
@@ -146,6 +228,10 @@ func c19Run(in *c19Input) Res {
 		out["rowOffsets"] = offs
 		out["spilled"] = spilled
 		out["leftover"] = countFiles(tmp) - before
+		if in.BadLen > 0 {
+			out["failed"] = failed1
+			out["failedRows"] = failed2
+		}
 		return Ok(out)
 	})
 }
@@ -237,6 +323,29 @@ func genC19(r *rand.Rand, thorough bool) *c19Input {
 }
 
 func c19Emit(ctx *Ctx, in *c19Input, tags ...string) {
+	op := "sort"
+	if in.Via == "sortfile" {
+		rows := make([][]string, len(in.Rows))
+		for i, r := range in.Rows {
+			rows[i] = unhexStrs(r)
+		}
+		fixed, ok := c19CSVFix(in.NCols, rows)
+		if !ok {
+			return
+		}
+		in.Rows = hxRows(fixed)
+		if in.Rows == nil {
+			in.Rows = [][]string{}
+		}
+		tags = append(tags, "sortfile")
+		if len(in.PK) > 0 && in.PK[0] != 0 {
+			tags = append(tags, "sortfile-key-not-leading")
+		}
+	}
+	if in.BadLen > 0 {
+		op = "sort-fault"
+		tags = append(tags, "spill-fault")
+	}
 	res := c19Run(in)
 	nt := len(in.Rows) > 255
 	if res["res"] == "ok" {
@@ -255,7 +364,50 @@ func c19Emit(ctx *Ctx, in *c19Input, tags ...string) {
 	if len(in.Removed) > 0 {
 		tags = append(tags, "removed-cols")
 	}
-	ctx.Emit("sort", in, res, nt, tags...)
+	if in.BadLen > 0 && res["res"] == "ok" {
+		if f, ok := res["val"].(map[string]interface{})["failed"].([]int); ok {
+			tags = append(tags, fmt.Sprintf("failed-spills=%d", min(len(f), 5)))
+			nt = nt || len(f) > 0
+		}
+	}
+	ctx.Emit(op, in, res, nt, tags...)
+}
+
+// c19Total is the size AddRow accounts for the rows (hex cells).
+func c19Total(rows [][]string) int {
+	total := 0
+	for _, row := range rows {
+		total += 4
+		for _, c := range row {
+			total += len(c)/2 + 2
+		}
+	}
+	return total
+}
+
+// c19WithFault: the rows of `in` loaded while, for a stretch of rows, no spill file can be created.
+// The run size is small enough for 2..9 spills (or one per row), the stretch long enough to hold 0..3
+// spill attempts; it may start at the first row and end after the last.
+func c19WithFault(r *rand.Rand, in *c19Input) *c19Input {
+	n := len(in.Rows)
+	if n == 0 {
+		return nil
+	}
+	f := *in
+	f.Via = ""
+	k := 2 + r.Intn(8)
+	f.RunSize = uint64(c19Total(in.Rows)/k + 1)
+	perSpill := n/k + 1
+	if r.Intn(5) == 0 {
+		f.RunSize = 1
+		perSpill = 1
+	}
+	f.BadFrom = r.Intn(n)
+	f.BadLen = 1 + r.Intn(3*perSpill)
+	if r.Intn(4) == 0 {
+		f.BadFrom = 0
+	}
+	return &f
 }
 
 // c19IngestError: an ingest that fails after runs have been spilled (a record with the wrong number
@@ -359,6 +511,8 @@ type c19Use struct {
 	// "cancelled-rows" (output asked for under an already cancelled context: the producer stops at its
 	// first block boundary), "blocks" / "rows" (output read to the end)
 	Use string `json:"use"`
+	// Via "sortfile": loaded by Sorter.SortFile from a CSV file (as c19Input.Via)
+	Via string `json:"via,omitempty"`
 }
 
 type c19ReuseInput struct {
@@ -397,18 +551,29 @@ func c19ReuseRun(in *c19ReuseInput) Res {
 			if i > 0 {
 				s.Reset()
 			}
-			cols := make([]string, u.NCols)
-			for c := range cols {
-				cols[c] = string(rune('a' + c))
-			}
-			s.SetColumns(cols)
-			s.PK = make([]uint32, len(u.PK))
-			for j, p := range u.PK {
-				s.PK[j] = uint32(p)
-			}
-			for _, row := range u.Rows {
-				if err := s.AddRow(unhexStrs(row)); err != nil {
+			cols := c19ColNames(u.NCols)
+			if u.Via == "sortfile" {
+				rows := make([][]string, len(u.Rows))
+				for j, row := range u.Rows {
+					rows[j] = unhexStrs(row)
+				}
+				pk := make([]string, len(u.PK))
+				for j, p := range u.PK {
+					pk[j] = cols[p]
+				}
+				if err := s.SortFile(io.NopCloser(bytes.NewReader(c19CSV(u.NCols, rows))), pk); err != nil {
 					return Err("addrow")
+				}
+			} else {
+				s.SetColumns(cols)
+				s.PK = make([]uint32, len(u.PK))
+				for j, p := range u.PK {
+					s.PK[j] = uint32(p)
+				}
+				for _, row := range u.Rows {
+					if err := s.AddRow(unhexStrs(row)); err != nil {
+						return Err("addrow")
+					}
 				}
 			}
 			spilled := 0
@@ -540,6 +705,27 @@ func genC19Reuse(r *rand.Rand) *c19ReuseInput {
 }
 
 func c19ReuseEmit(ctx *Ctx, in *c19ReuseInput, tags ...string) {
+	for i := range in.Uses {
+		u := &in.Uses[i]
+		if u.Via != "sortfile" {
+			continue
+		}
+		rows := make([][]string, len(u.Rows))
+		for j, row := range u.Rows {
+			rows[j] = unhexStrs(row)
+		}
+		fixed, ok := c19CSVFix(u.NCols, rows)
+		if !ok {
+			return
+		}
+		u.Rows = hxRows(fixed)
+		if u.Rows == nil {
+			u.Rows = [][]string{}
+		}
+		if i == 0 {
+			tags = append(tags, "sortfile")
+		}
+	}
 	res := c19ReuseRun(in)
 	nt := false
 	if res["res"] == "ok" {
@@ -559,10 +745,21 @@ func runC19(ctx *Ctx) {
 		c19IngestError(ctx)
 		return
 	}
-	c19Emit(ctx, genC19(ctx.R, ctx.Thorough()))
+	base := genC19(ctx.R, ctx.Thorough())
+	c19Emit(ctx, base)
 	// further kinds of cases, by case index and after the draws of the case above (which therefore
 	// stays what it was)
 	switch ctx.Idx % 12 {
+	case 2, 5, 8, 11:
+		// the same table, loaded from a CSV file by SortFile (key given by column names)
+		sf := *base
+		sf.Via = "sortfile"
+		c19Emit(ctx, &sf)
+	case 0, 4, 6, 10:
+		// the same table, with spills that fail while it is loaded
+		if f := c19WithFault(ctx.R, base); f != nil {
+			c19Emit(ctx, f)
+		}
 	case 3:
 		// (each such case carries 64 KiB cells: in the thorough tier one in six of these indices, so
 		// that the volume handed to the driver stays moderate)
@@ -570,7 +767,15 @@ func runC19(ctx *Ctx) {
 			c19Emit(ctx, genC19Limit(ctx.R), "limit-cell")
 		}
 	case 1, 9:
-		c19ReuseEmit(ctx, genC19Reuse(ctx.R))
+		ru := genC19Reuse(ctx.R)
+		if ctx.Idx%12 == 9 {
+			// every table is loaded from a CSV file by SortFile: the key of the table before is still set
+			// when the next file is opened
+			for i := range ru.Uses {
+				ru.Uses[i].Via = "sortfile"
+			}
+		}
+		c19ReuseEmit(ctx, ru)
 	}
 }
 
